@@ -1775,13 +1775,13 @@ class Engine:
     def st_CXXForRangeStmt(self, n, st, fr):
         return self.models.range_for(n, st, fr)
 
-    def run_loop(self, n, st, fr, cond, inc, body, pre_test=True, bind=None, range_info=None):
+    def run_loop(self, n, st, fr, cond, inc, body, pre_test=True, bind=None, range_info=None, use_contract=True):
         """generic loop: contract if the spec has one, else bounded unrolling that must terminate syntactically"""
         ordn = self.loop_ordinal(n, fr)
         if self.stop_at_loop is not None and self.stop_at_loop == (fr.fn['id'], ordn):
             self.stopped_states.append(st)        # prefix contracts: the state on entry to the loop is what is specified
             return []
-        lc = self.specs.loop_contract(fr.qname, ordn) if self.specs else None
+        lc = self.specs.loop_contract(fr.qname, ordn) if (self.specs and use_contract) else None
         if lc is not None:
             return lc.apply(self, n, st, fr, cond, inc, body, pre_test, bind, range_info)
         results = []
